@@ -114,6 +114,10 @@ def apply_op(tree, op, scale):
     if o == "prune":
         tree.prune()
         return "tree", tree
+    if o == "remove_deleted":
+        names = set(op["names"])
+        tree.remove_deleted(lambda n: n.name in names)
+        return "tree", tree
     if o == "copy":
         return "tree", tree.copy()
     if o == "deepcopy":
